@@ -356,6 +356,7 @@ func c17check(cs c17case) *c17result {
 		res.engine = fmt.Sprintf("cannot re-read model %q: %v", cs.Model, err)
 		return res
 	}
+	rear := &tree.NNIRearranger{}
 	r := guard(func() {
 		// 1. presentation
 		var t *tree.Tree
@@ -382,6 +383,26 @@ func c17check(cs c17case) *c17result {
 					return
 				}
 			}
+		case "reuse":
+			// one rearranger object, used on the tree, then the tree is edited (a tip is grafted in the middle of a
+			// branch), then the same rearranger enumerates the edited tree
+			t, err = gtParse(cs.Model)
+			if err != nil {
+				res.engine = fmt.Sprintf("gotree cannot parse %q: %v", cs.Model, err)
+				return
+			}
+			rear.Rearrange(t, func(re tree.Rearrangement) bool { return true })
+			edges := t.Edges()
+			nn := t.NewNode()
+			nn.SetName("zz")
+			if _, _, _, e := t.GraftTipOnEdge(nn, edges[cs.Reroot%len(edges)]); e != nil {
+				res.precond = "GraftTipOnEdge failed: " + e.Error()
+				return
+			}
+			if e := t.ReinitIndexes(); e != nil {
+				res.precond = "ReinitIndexes failed: " + e.Error()
+				return
+			}
 		case "build":
 			t = c17build(M, cs.PPos)
 		default:
@@ -390,8 +411,8 @@ func c17check(cs c17case) *c17result {
 		}
 		sh0, bad := c17walk(t, 2)
 		if bad != "" {
-			if cs.Kind == "reroot" {
-				res.precond = "tree malformed after Reroot: " + bad
+			if cs.Kind == "reroot" || cs.Kind == "reuse" {
+				res.precond = "tree malformed after " + cs.Kind + ": " + bad
 			} else {
 				res.engine = "presented tree malformed before any NNI: " + bad
 			}
@@ -406,6 +427,8 @@ func c17check(cs c17case) *c17result {
 				res.precond = "Reroot changed the unrooted tree"
 				return
 			}
+		} else if cs.Kind == "reuse" {
+			// the edited tree is its own model
 		} else if d := sameModel(M, o0, true); d != "" {
 			res.engine = "presented tree differs from the model: " + d
 			return
@@ -425,6 +448,9 @@ func c17check(cs c17case) *c17result {
 				res.engine = "model: unrooted binary tree with an inner branch that is not eligible"
 				return
 			}
+		}
+		if cs.Kind == "reuse" {
+			res.cnt["reuse_cases"]++
 		}
 		alts := map[rm.Split][2]rm.Split{}
 		for _, b := range brs {
@@ -544,7 +570,7 @@ func c17check(cs c17case) *c17result {
 		if cs.Collect {
 			// the proposals are collected first and applied / undone afterwards, in enumeration order
 			var all []tree.Rearrangement
-			(&tree.NNIRearranger{}).Rearrange(t, func(re tree.Rearrangement) bool {
+			rear.Rearrange(t, func(re tree.Rearrangement) bool {
 				all = append(all, re)
 				return len(all) <= expect+4
 			})
@@ -555,7 +581,7 @@ func c17check(cs c17case) *c17result {
 				}
 			}
 		} else {
-			(&tree.NNIRearranger{}).Rearrange(t, step)
+			rear.Rearrange(t, step)
 		}
 		if res.key != "" {
 			return
@@ -741,6 +767,12 @@ func c17enumerate(quick bool, stop func() bool, visit func(cs c17case)) {
 						visit(c17case{Model: txt, Kind: "build", PPos: pp})
 					}
 				}
+				if base && d == 0 {
+					// the same rearranger object before and after an edit of the tree (graft on each of the first branches)
+					for j := 0; j < 3; j++ {
+						visit(c17case{Model: txt, Kind: "reuse", Reroot: j})
+					}
+				}
 				if base {
 					// gotree's own Reroot from this presentation to every inner node
 					for j := 0; j <= ninner; j++ {
@@ -832,7 +864,7 @@ func init() {
 			"for rooted trees the inner branches are those whose both ends have three neighbours (DESIGN §4): the root split of a rooted tree with two inner root children gets no proposal and none is demanded",
 			"gotree's Reroot is only used to produce further presentations; a presentation that is malformed before any NNI is counted (precondition_failed) and not judged",
 		},
-		Require: []string{"proposals", "applied", "undone", "reapplied", "full_enumerations", "collected_enumerations", "tipset_checked", "one_split_diff_checked", "branches_with_two_proposals",
+		Require: []string{"proposals", "applied", "undone", "reapplied", "full_enumerations", "collected_enumerations", "reuse_cases", "tipset_checked", "one_split_diff_checked", "branches_with_two_proposals",
 			"neighbour_pairs_compared", "rooted_cases", "unrooted_cases", "rooted_cases_with_root_split_not_proposed", "applied_with_branch_reoriented",
 			"cli_runs", "cli_neighbours", "presentation_parse", "presentation_build", "presentation_reroot", "large_instances"},
 		Run: func(c *Ctx) {
